@@ -28,12 +28,13 @@ Proof. exact total_on_supported. Qed.
 Print Assumptions C15_total_on_supported.
 
 (* ---- eq_implies_key_eq: equal values of the same type get equal keys (canonicity of the sort by _sort_key:
-   mixed-type / None / tuple / frozenset elements and keys included) *)
-Theorem C15_eq_implies_key_eq_partial : forall fp v w k k',
-  wf v = true -> wf w = true -> no_pandas v = true -> no_pandas w = true ->
+   mixed-type / None / tuple / frozenset elements and keys included) - FULL: every pair of well-formed values,
+   pandas Series / DataFrames included *)
+Theorem C15_eq_implies_key_eq : forall fp v w k k',
+  wf v = true -> wf w = true ->
   py_same v w = true -> to_hashable fp v = Ok k -> to_hashable fp w = Ok k' -> py_eq k k' = true.
 Proof. exact eq_implies_key_eq. Qed.
-Print Assumptions C15_eq_implies_key_eq_partial.
+Print Assumptions C15_eq_implies_key_eq.
 
 Example C15_eq_implies_key_eq_nontrivial :
   (* {1: [{'b', None, 2}], frozenset({1}): Counter(a=0, b=2), 2.5: ()}  vs
@@ -43,7 +44,7 @@ Example C15_eq_implies_key_eq_nontrivial :
                   (PFloat 10, PTuple [])] in
   let w := PDict [(PFloat 10, PTuple []); (PBool true, PList [PSet [PFloat 8; PStr (s "b"); PNone]]);
                   (PFrozenset [PBool true], PCounter [(PStr (s "b"), PInt 2)])] in
-  wf v = true /\ wf w = true /\ no_pandas v = true /\ no_pandas w = true /\ py_same v w = true /\ v <> w
+  wf v = true /\ wf w = true /\ py_same v w = true /\ v <> w
   /\ exists k k', to_hashable true v = Ok k /\ to_hashable true w = Ok k' /\ py_eq k k' = true.
 Proof.
   repeat split; try (vm_compute; reflexivity); try discriminate.
